@@ -25,6 +25,7 @@ RULE = (
     "Non-trivial case: at least one must-reject cell and one must-accept non-empty cell; distinct by hash of "
     "(format, declaration, cells)."
     "RegEx rules may span lines (line feed, tab, '#' as ordinary characters); Integer cells include float spellings of integers ('17.0', '17.', '17e0')."
+    "Text fields may carry something in the rule column (it has no say); an absent length may be a cell of blanks."
 )
 ASSUMPTIONS = [
     "cells the statement leaves open are neutral: '+5', leading zeros, '1_0', surrounding blanks, non-ASCII digits, "
